@@ -453,12 +453,195 @@ def draw_case(run, idx, cfgspec, runs, seed):
                     "row_counts": {repr(k): dict(v) for k, v in list(rowc.items())[:3]}})
 
 
+# ------------------------------------------------------------------------------------------------
+class RecImputer:
+    """Minimal imputer that only records the requested subsets (order decoding at high repetition counts)."""
+
+    def __init__(self):
+        self.subsets = []
+
+    def impute(self, feature_subset, x_i, n_samples=1):
+        self.subsets.append(frozenset(feature_subset))
+        return [{"output": 0.0}] * n_samples
+
+
+ORDER_CFGS = [("sage", 2), ("sage", 3), ("sage", 4), ("batch", 3), ("batch", 4), ("original", 3), ("sage", 5)]
+R_ORDER = {"quick": 60000, "thorough": 600000}
+
+
+def order_case(run, idx, cfgspec, runs, seed):
+    from ixai.explainer import IncrementalSage, BatchSage
+    kind, d = cfgspec
+    names = make_names("str", d)
+    random.seed(seed)
+    np.random.seed(seed)
+    tag = f"orders/{kind}/d={d}"
+    orders = collections.Counter()
+    x = {f: float(j + 1) for j, f in enumerate(names)}
+    inputs = []
+    if kind == "original":
+        runs = runs // 8
+        rows = [{f: 1000.0 * (t + 1) + j for j, f in enumerate(names)} for t in range(6)]
+
+        def model(xx):
+            if isinstance(xx, dict):
+                inputs.append(xx)
+                return {"output": 0.0}
+            return [{"output": 0.0} for _ in xx]
+        e = BatchSage(model, names, lambda a, b: 0.0, n_inner_samples=1)
+        for _ in range(runs):
+            del inputs[:]
+            e.explain_many_original(rows, list(range(6)), verbose=False)
+            first = inputs[:d]
+            known, order, ok = set(), [], True
+            for xi in first:
+                same = {f for f in names if xi[f] == rows[0][f]}
+                new = same - known
+                if same == set(names) and len(known) < d - 1:
+                    ok = False            # own row drawn: order not observable for this call
+                    break
+                if len(new) != 1:
+                    ok = False
+                    break
+                order.append(next(iter(new)))
+                known = same
+            if ok:
+                orders[tuple(order)] += 1
+    else:
+        imp = RecImputer()
+        if kind == "sage":
+            e = IncrementalSage(lambda xx: {"output": 0.0}, lambda a, b: 0.0, names, smoothing_alpha=0.5, imputer=imp, dynamic_setting=True)
+            e.explain_one(x, 0, update_storage=False)
+            step = lambda: e.explain_one(x, 0, update_storage=False)
+        else:
+            e = BatchSage(lambda xx: ({"output": 0.0} if isinstance(xx, dict) else [{"output": 0.0} for _ in xx]), names,
+                          lambda a, b: 0.0, imputer=imp)
+            step = lambda: e.explain_many([x], [0], verbose=False)
+        full = frozenset(names)
+        for _ in range(runs):
+            del imp.subsets[:]
+            step()
+            rem, order = full, []
+            for sub in imp.subsets:
+                diff = rem - sub
+                if len(diff) != 1:
+                    order = None
+                    break
+                order.append(next(iter(diff)))
+                rem = sub
+            orders[tuple(order) if order else None] += 1
+    run.ok(runs, kind="orders:" + kind)
+    tot = sum(orders.values())
+    ct = CellTests(math.factorial(d), eps=EPS / (2 * len(OUTCOME_CFGS) + 64))
+    fails = []
+    if orders.get(None):
+        fails.append(("chain", f"{tag}: {orders[None]} calls whose imputation sets are not a chain"))
+    for o in itertools.permutations(names):
+        r = ct.test(orders.get(o, 0), tot, 1 / math.factorial(d), f"{tag} feature order {o}")
+        if r:
+            fails.append(("order-distribution", r))
+        if orders.get(o):
+            run.nontriv(("order", tag, o))
+    run.count("cell-tests", ct.done)
+    run.notes[f"{tag}"] = {"calls_decoded": tot, "orders_seen": len(orders), "min_p": ct.min_p, "mdd": ct.max_mdd}
+    seen = set()
+    for mech, msg in fails:
+        if mech not in seen:
+            seen.add(mech)
+            run.violation(f"{'original-mode' if kind == 'original' else kind}:{mech}", msg + f" ({tot} calls)", {"config": cfgspec, "runs": runs, "seed": seed})
+
+
+MOVING_CFGS = [("pfi", "interval", 4, "joint"), ("sage", "interval", 3, "product"), ("sage", "geometric1", 4, "joint"),
+               ("pfi", "uniform", 3, "product"), ("sage", "sequence", 1, "joint"), ("interval-sage", "interval", 3, "joint")]
+R_MOVING = {"quick": 5000, "thorough": 60000}
+
+
+def moving_case(run, idx, cfgspec, runs, seed):
+    """Storage evolves between explanations (update_storage=True): background rows must come from the CURRENT content."""
+    from ixai.explainer import IncrementalSage, IncrementalPFI, IntervalSage
+    from ixai.storage import IntervalStorage, GeometricReservoirStorage, UniformReservoirStorage, SequenceStorage
+    from ixai.imputer import MarginalImputer
+    kind, st_kind, m, strat = cfgspec
+    d = 3
+    names = make_names("str", d)
+    clock = Clock()
+    random.seed(seed)
+    np.random.seed(seed)
+
+    def model(xx):
+        if isinstance(xx, dict):
+            clock.log.append(("model", xx))
+            return {"output": 0.0}
+        return [{"output": 0.0} for _ in xx]
+    st = {"interval": lambda: IntervalStorage(size=m, store_targets=True), "geometric1": lambda: GeometricReservoirStorage(size=m, constant_probability=1.0),
+          "uniform": lambda: UniformReservoirStorage(size=m), "sequence": lambda: SequenceStorage()}[st_kind]()
+    imp = ImputerProxy(MarginalImputer(model, strat, st), clock)
+    if kind == "interval-sage":
+        e = IntervalSage(model, names, lambda a, b: 0.0, n_inner_samples=2, interval_length=1, storage_length=m, storage=st, imputer=imp)
+    else:
+        cls = IncrementalSage if kind == "sage" else IncrementalPFI
+        e = cls(model, lambda a, b: 0.0, names, smoothing_alpha=0.5, storage=st, imputer=imp, n_inner_samples=2, dynamic_setting=True)
+    tag = f"moving/{kind}/{st_kind}/m={m}/{strat}"
+    cells = collections.Counter()
+    fails = []
+    judged = 0
+    for t in range(runs):
+        x = {f: 1000 * (t + 1) + j for j, f in enumerate(names)}
+        if kind == "interval-sage":
+            st.update(x, t)
+            rows = list(st.get_data()[0])
+            clock.reset()
+            e.explain_one(x, t, update_storage=False, verbose=False)
+        else:
+            rows = list(st.get_data()[0])
+            clock.reset()
+            e.explain_one(x, t)
+        if not rows:
+            continue
+        full = len(rows) == m
+        for ev in clock.log:
+            if ev[0] != "impute.ret":
+                continue
+            xref = next(c[2] for c in clock.log if c[0] == "impute.call")
+            for xi in ev[2]:
+                for f in ev[1]:
+                    idxs = [i for i, r in enumerate(rows) if r[f] == xi[f]]
+                    judged += 1
+                    if not idxs:
+                        fails.append(("background-not-current", f"{tag} step {t}: feature {f!r} imputed with {xi[f]!r} which no CURRENTLY stored "
+                                                                f"observation has (stored: {[r[f] for r in rows]})"))
+                    elif full:
+                        cells[idxs[0]] += 1
+        if len(fails) > 5:
+            break
+    run.ok(judged, kind="moving:" + kind)
+    ct = CellTests(m, eps=EPS / (2 * len(OUTCOME_CFGS) + 64))
+    tot = sum(cells.values())
+    for i in range(m):
+        r = ct.test(cells.get(i, 0), tot, 1 / m, f"{tag} position {i} of the current storage content")
+        if r:
+            fails.append(("row-distribution", r))
+        if cells.get(i):
+            run.nontriv(("moving", tag, i))
+    run.count("cell-tests", ct.done)
+    run.notes[tag] = {"imputed_values_judged": judged, "min_p": ct.min_p, "mdd": ct.max_mdd}
+    seen = set()
+    for mech, msg in fails:
+        if mech not in seen:
+            seen.add(mech)
+            run.violation(f"{kind}:{mech}", msg, {"config": cfgspec, "runs": runs, "seed": seed})
+
+
+
 def main(run):
     run.rule = ("(a) draw level: feature order and source row of every imputed feature decoded from the model inputs (unique "
                 "feature values) over R calls per configuration {IncrementalSage, IncrementalPFI, BatchSage.explain_many, "
                 "explain_many_original} x {joint, product} x storage size m in {2..7, 50, 100, 1000 (bucketed)}; exact binomial "
                 "cells: each of d! orders 1/d!, each row 1/m per chain position / per explained-observation position, row pairs "
-                "across features (product) and across consecutive inner samples 1/m^2; (b) outcome level: per-call contribution "
+                "across features (product) and across consecutive inner samples 1/m^2; (a2) feature orders at high repetition counts "
+                "(6e4 quick / 6e5 thorough calls per configuration, d in 2..5) through a recording imputer; (a3) MOVING storages (interval, "
+                "always-insert geometric, uniform, sequence) updated between explanations: every imputed value must stem from the "
+                "storage content current at that call and its position be uniform; (b) outcome level: per-call contribution "
                 "vectors observed through importance_values with alpha=1 in dynamic mode and a frozen storage (or the batch return "
                 "value) against the EXACT distribution from enumerating all permutations and background tuples (tiny games, exact "
                 "rationals), every outcome a binomial cell, impossible outcomes flagged, mean vs exact expectation (Shapley value / "
@@ -472,7 +655,8 @@ def main(run):
                 "ixai/imputer/marginal_imputer.py:MarginalImputer._sample_marginals",
                 "ixai/imputer/marginal_imputer.py:MarginalImputer._sample_product_marginals")
     sh, nsh = run.shard
-    jobs = [("outcome", i, c) for i, c in enumerate(OUTCOME_CFGS)] + [("draw", i, c) for i, c in enumerate(DRAW_CFGS)]
+    jobs = [("outcome", i, c) for i, c in enumerate(OUTCOME_CFGS)] + [("draw", i, c) for i, c in enumerate(DRAW_CFGS)] \
+        + [("order", i, c) for i, c in enumerate(ORDER_CFGS)] + [("moving", i, c) for i, c in enumerate(MOVING_CFGS)]
     # every shard must touch every anchor: shards run a slice of jobs, coverage is merged by the parent
     for j, (what, i, c) in enumerate(jobs):
         if j % nsh != sh:
@@ -480,5 +664,9 @@ def main(run):
         seed = run.shard_seed * 31 + j
         if what == "outcome":
             outcome_case(run, i, c, R_OUTCOME[run.tier], seed)
+        elif what == "order":
+            order_case(run, i, c, R_ORDER[run.tier], seed)
+        elif what == "moving":
+            moving_case(run, i, c, R_MOVING[run.tier], seed)
         else:
             draw_case(run, i, c, R_DRAW[run.tier], seed)
